@@ -15,6 +15,15 @@
 (* Named deviation FreezeAtFirstUse: the settings of the first             *)
 (* interpolation stay in force (an interpolator cached without following   *)
 (* the setters); TLC shows it leaves the contract.                         *)
+(*                                                                         *)
+(* The behaviour may also go on with a DUPLICATE of the object: a pickle   *)
+(* round trip (settings kept) or ephem.copy().  For the latter the         *)
+(* contract one would expect - a copy interpolates as its source - is the  *)
+(* invariant CopyKeepsSettings; the code rebuilds the copy from its points *)
+(* alone, i.e. with the DEFAULT method and order: named deviation          *)
+(* CopyResetsSettings (TRUE = what the code does; outside the listed       *)
+(* properties, so the replay follows the code and TLC reports where the    *)
+(* expectation breaks).                                                    *)
 (***************************************************************************)
 EXTENDS Integers, Sequences, FiniteSets, TLC
 
@@ -22,7 +31,8 @@ CONSTANTS Orders,            \* orders that may be set
           Reprs,             \* set of <<frame, form>> the ephemeris may be converted to in place
           Queries,           \* abscissae (half-steps of the table) that may be interpolated
           MaxLen,
-          FreezeAtFirstUse   \* FALSE: the contract; TRUE: the deviation
+          FreezeAtFirstUse,  \* FALSE: the contract; TRUE: the deviation
+          CopyResetsSettings \* TRUE: ephem.copy() comes back with the default method and order (what the code does)
 
 VARIABLES method, order,     \* what the getters report
           repr,              \* <<frame, form>> of the points (ephem.frame = / ephem.form = convert them in place)
@@ -64,9 +74,25 @@ Convert(r) ==
   /\ hist' = Append(hist, <<"convert", r[1], r[2]>>)
   /\ UNCHANGED <<method, order, used, built>>
 
-Next == (\E k \in Orders : SetOrder(k)) \/ (\E m \in Methods : SetMethod(m)) \/ (\E q \in Queries : Interpolate(q)) \/ (\E r \in Reprs : Convert(r))
+\* go on with a duplicate of the object (the interpolator of the new object is not built yet)
+Pickle ==
+  /\ Can
+  /\ built' = FALSE /\ used' = <<method, order>> /\ usedrepr' = repr
+  /\ hist' = Append(hist, <<"pickle">>)
+  /\ UNCHANGED <<method, order, repr>>
+Copy ==
+  /\ Can
+  /\ method' = IF CopyResetsSettings THEN "lagrange" ELSE method
+  /\ order' = IF CopyResetsSettings THEN 8 ELSE order
+  /\ built' = FALSE /\ used' = <<method', order'>> /\ usedrepr' = repr
+  /\ hist' = Append(hist, <<"copy">>)
+  /\ UNCHANGED repr
+
+Next == Pickle \/ Copy \/ (\E k \in Orders : SetOrder(k)) \/ (\E m \in Methods : SetMethod(m)) \/ (\E q \in Queries : Interpolate(q)) \/ (\E r \in Reprs : Convert(r))
 Spec == Init /\ [][Next]_vars
 
 \* CONTRACT: what an interpolation uses is what the getters report
 UsesCurrentSettings == used = <<method, order>> /\ usedrepr = repr
+\* expectation (not demanded by a listed property): duplicating the object does not change how it interpolates
+CopyKeepsSettings == [][(hist' # hist /\ hist'[Len(hist')][1] \in {"copy", "pickle"}) => (method' = method /\ order' = order)]_vars
 =============================================================================
